@@ -623,6 +623,12 @@ func (k *Keeper) traceTx(
 		return nil, 0, status.Errorf(codes.Internal, "failed to unmarshal receipt: %v", err)
 	}
 
+	if errors.Is(deadlineCtx.Err(), context.DeadlineExceeded) {
+		// The tracer has been stopped already and that interruption may have been consumed during the execution,
+		// so nothing would bound the tracer's result function anymore.
+		return nil, 0, status.Error(codes.DeadlineExceeded, "execution timeout")
+	}
+
 	var result interface{}
 	result, err = tracer.GetResult()
 	if err != nil {
